@@ -248,6 +248,11 @@ def _parse_ext(ext, feats):
                         if i + 1 >= n:
                             return "malformed"
                         feats.add("ext-quoted-pair")
+                        # Twisted deliberately treats the backslash as a disallowed
+                        # extension byte (pinned by its own test_extensionsMalformed,
+                        # GHSA-c2jg-hw38-jrqq hardening) and the statement lets
+                        # "disallowed bytes in extensions" be rejected: either verdict is fine.
+                        strict = False
                         i += 2
                         continue
                     i += 1
